@@ -12,17 +12,23 @@
 package main
 
 import (
+	"context"
 	"fmt"
 	"math/rand"
 	"runtime/debug"
 	"sort"
 	"strings"
+	"sync"
 
 	"github.com/TarsCloud/TarsGo/tars/selector"
 	"github.com/TarsCloud/TarsGo/tars/selector/consistenthash"
 	"github.com/TarsCloud/TarsGo/tars/selector/modhash"
+	"github.com/TarsCloud/TarsGo/tars/util/current"
 	"github.com/TarsCloud/TarsGo/tars/util/endpoint"
+	"github.com/TarsCloud/TarsGo/tars/util/rogger"
 
+	"verif/netlab"
+	"verif/rpcw"
 	"verif/selref"
 	"verif/vlib"
 )
@@ -440,5 +446,101 @@ func main() {
 			run.Sample(map[string]interface{}{"collision_pair": []string{a.Host, b.Host}, "note": "both hosts own an identical Ketama point"})
 		}
 	}
+	e2ePhase(r)
 	run.Finish()
+}
+
+// e2ePhase: a real proxy, a hash code in the call context, one scripted server per endpoint.  The
+// server that receives the token must be the one the routing rules give: mod-hash = slot code mod N
+// of the installed endpoint list (ServantProxy.Endpoints()), consistent hash = owner in the
+// reference ring over the endpoint hosts.
+func e2ePhase(r *rand.Rand) {
+	rogger.SetLevel(rogger.OFF)
+	nWorlds := run.Pick(6, 60)
+	for wi := 0; wi < nWorlds; wi++ {
+		n := 2 + wi%4
+		type ep struct {
+			host string
+			srv  *netlab.ScriptServer
+			mu   sync.Mutex
+			seen map[string]bool
+		}
+		eps := make([]*ep, n)
+		var addrs []string
+		for i := range eps {
+			e := &ep{host: fmt.Sprintf("127.1.%d.%d", 1+wi%200, i+1), seen: map[string]bool{}}
+			e.srv = netlab.NewScriptServerOnHost(e.host, func(ev *netlab.ReqEvent) {
+				if ev.Err != nil {
+					return
+				}
+				e.mu.Lock()
+				e.seen[string(ev.Req.Buffer)] = true
+				e.mu.Unlock()
+				_ = ev.Conn.Send(netlab.Echo(ev))
+			})
+			eps[i] = e
+			addrs = append(addrs, e.srv.Addr)
+		}
+		cl := rpcw.NewDirect(addrs, rpcw.Opt{InvokeTimeoutMs: 2000})
+		installed := cl.SP.Endpoints()
+		var members []endpoint.Endpoint
+		for _, e := range installed {
+			members = append(members, selref.EP(e.Host, -1, 0))
+		}
+		ring := selref.BuildRing(members, false, true)
+		codes := []uint32{0, 1, 2, uint32(n - 1), uint32(n), uint32(n + 1), 0xffffffff, 0x80000000, 0x7fffffff}
+		for _, k := range ring.Keys()[:min(len(ring.Keys()), 12)] {
+			codes = append(codes, k, k+1, k-1)
+		}
+		for i := 0; i < 20; i++ {
+			codes = append(codes, r.Uint32())
+		}
+		for ci, code := range codes {
+			for _, ht := range []int{0, 1} { // 0 = ModHash, 1 = ConsistentHash
+				tok := fmt.Sprintf("c14e2e-%d-%d-%d", wi, ci, ht)
+				ctx := current.ContextWithClientCurrent(context.Background())
+				current.SetClientHash(ctx, ht, code)
+				b, _, err := cl.Call(ctx, "echo", []byte(tok), false)
+				run.Eval(1)
+				if err != nil || string(b) != tok {
+					run.Violation("e2e-call-failed", "hash-routing", fmt.Sprintf("call with hash code %d (type %d) failed: %v", code, ht, err), map[string]interface{}{"code": code, "hash_type": ht})
+					return
+				}
+				var want string
+				if ht == 0 {
+					want = installed[code%uint32(len(installed))].Host
+				} else {
+					h, amb, _ := ring.Lookup(code)
+					if amb {
+						continue
+					}
+					want = h
+				}
+				got := "?"
+				for _, e := range eps {
+					e.mu.Lock()
+					if e.seen[tok] {
+						got = e.host
+					}
+					e.mu.Unlock()
+				}
+				if got != want {
+					name := map[int]string{0: "mod-hash", 1: "consistent-hash"}[ht]
+					var hosts []string
+					for _, e := range installed {
+						hosts = append(hosts, e.Host)
+					}
+					run.Violation("e2e-misrouted", name, fmt.Sprintf("call with %s code %d arrived at %s, the routing rules give %s (installed list %v)", name, code, got, want, hosts),
+						map[string]interface{}{"code": code, "hash_type": name, "installed": hosts, "got": got, "want": want})
+					return
+				}
+				run.Distinct(fmt.Sprintf("e2e|%d|%d|%d", n, code, ht))
+			}
+		}
+		// repeated calls with one code stay on one server (pure function of code and set)
+		for _, e := range eps {
+			e.srv.Stop()
+		}
+	}
+	run.Sample(map[string]interface{}{"phase": "end-to-end", "events": "ctx with SetClientHash(ModHash|ConsistentHash, code) -> real TarsInvoke -> token seen by exactly the scripted server the rules predict"})
 }
